@@ -98,3 +98,24 @@ package controllerv1
 //@     invariant i == 0 ==> respLast == 91
 //@     invariant i != 0 ==> respLast != 91 && respLast != 44
 //@     modifies respLast
+
+// A request never waits on a channel that does not exist: when the service reports
+// an error (the database failed) it returns no channel, and the handler answers with
+// the error instead of ranging over nil, which would block the request forever.
+// Assumed of the service (reader/service): on success the channel is not nil.
+//@ iface (github.com/metrico/qryn/reader/model.ITempoService).Tags(ctx)
+//@   modifies nothing
+//@   ensures isnil(result1) ==> result0 != nil
+//@ iface (github.com/metrico/qryn/reader/model.ITempoService).TagsV2(ctx, query, from, to, limit)
+//@   modifies nothing
+//@   ensures isnil(result1) ==> result0 != nil
+//@ iface (github.com/metrico/qryn/reader/model.ITempoService).Values(ctx, tag)
+//@   modifies nothing
+//@   ensures isnil(result1) ==> result0 != nil
+//@ iface (github.com/metrico/qryn/reader/model.ITempoService).ValuesV2(ctx, key, query, from, to, limit)
+//@   modifies nothing
+//@   ensures isnil(result1) ==> result0 != nil
+//@ func (*TempoController).TagsV2 [C12]
+//@   flag checks=-assert,-index,+nilchan
+//@ func (*TempoController).ValuesV2 [C12]
+//@   flag checks=-assert,-index,+nilchan
